@@ -125,6 +125,32 @@ Proof.
   destruct (Rltb 0 (Rabs a + Rabs b)); rn; lra.
 Qed.
 
+
+(* Robust variants over R of the single-accumulator links: the loop bodies are compared up to the ring laws, so a
+   semantics-preserving re-association of the source's arithmetic (which breaks the syntactic, every-[Num] theorems above)
+   leaves them intact.  A check needs one of the two. *)
+Ltac rbody := cbn [fst snd]; unfold sqdiff, sqr, absdiff, pdiff; cbn [add sub mul div neg nabs npow ipow zero one RNum]; rn;
+              first [reflexivity | ring | (unfold Rdiv; ring) | (f_equal; ring) | (f_equal; f_equal; ring)
+                    | (f_equal; apply Rabs_minus_sym) | (f_equal; f_equal; apply Rabs_minus_sym)].
+Ltac rfold := first [reflexivity | f_equal; apply fold_left_ext; intros ? [? ?]; rbody].
+
+Theorem src_euclidean_eqR (x y : list R) : length x = length y -> src_euclidean RNum x y = d_euclidean RNum x y.
+Proof. intros L. unfold src_euclidean, d_euclidean, vsum. cbv zeta. loop2 L. rewrite fold_left_zipw. rfold. Qed.
+
+Theorem src_manhattan_eqR (x y : list R) : length x = length y -> src_manhattan RNum x y = d_manhattan RNum x y.
+Proof. intros L. unfold src_manhattan, d_manhattan, vsum. cbv zeta. loop2 L. rewrite fold_left_zipw. first [reflexivity | apply fold_left_ext; intros ? [? ?]; rbody]. Qed.
+
+Theorem src_minkowski_eqR (p : R) (x y : list R) : length x = length y -> src_minkowski RNum x y p = d_minkowski RNum p x y.
+Proof. intros L. unfold src_minkowski, d_minkowski, vsum. cbv zeta. loop2 L. rewrite fold_left_zipw. rfold. Qed.
+
+Theorem src_standardised_euclidean_eqR (V x y : list R) :
+  length x = length y -> length x = length V -> src_standardised_euclidean RNum x y V = d_seuclidean RNum V x y.
+Proof.
+  intros L1 L2. unfold src_standardised_euclidean, d_seuclidean, vsum. cbv zeta. loop3 L1 L2.
+  rewrite fold_left_zipw, zipw_combine. rewrite combine_map_l'. rewrite fold_left_map.
+  first [reflexivity | f_equal; apply fold_left_ext; intros ? [[? ?] ?]; cbn [fst snd]; rbody].
+Qed.
+
 (* ---- counting loops: the source adds 0/1 floats, the model counts in Z ---- *)
 Lemma Reqb_IZR (a b : Z) : Reqb (IZR a) (IZR b) = Z.eqb a b.
 Proof.
